@@ -95,9 +95,9 @@ def run_lexer_models(ctx, evals, names, k, invs=None, par=4, workers=4):
             log("TLC MCLexer %s K=%d: %d distinct strings, %.0fs%s" % (key, k, r["distinct"], r["wall_s"], (" VIOLATED " + str(r["violated"])) if r["violated"] else ""))
     return res
 
-COMPOSE_INV = ["ComposeOK", "ComposeAgree", "ComposeSteps"]
+COMPOSE_INV = ["ComposeOK", "JoinOK", "ComposeAgree", "ComposeSteps"]
 
-def run_compose_models(ctx, evals, nc, np_, depth=1, maxtoks=40, simulate=0, invs=None, par=3, workers=5, tag="comp"):
+def run_compose_models(ctx, evals, nc, np_, depth=1, maxtoks=40, simulate=0, invs=None, par=3, workers=5, tag="comp", mode="plug"):
     """TLC MCCompose: every context <= nc tokens x every bracketed piece <= np_ tokens (exhaustive, depth 1), or - simulate > 0 -
     that many random chains of `depth` enclosing contexts (long inputs).  The composite's tree is ParseFn's own."""
     invs = COMPOSE_INV if invs is None else invs
@@ -105,8 +105,8 @@ def run_compose_models(ctx, evals, nc, np_, depth=1, maxtoks=40, simulate=0, inv
     def one(e):
         key = "%s_%s" % (tag, e)
         beh = os.path.join(ctx.wd, "beh_%s.ndjson" % key)
-        cfg = ("CONSTANTS E = \"%s\"\nNc = %d\nNp = %d\nMaxDepth = %d\nMaxToks = %d\nEmitOn = TRUE\nINIT Init\nNEXT Next\nCHECK_DEADLOCK FALSE\nINVARIANT %s\n"
-               % (e, nc, np_, depth, maxtoks, " ".join(list(invs) + ["Emit"])))
+        cfg = ("CONSTANTS E = \"%s\"\nMode = \"%s\"\nNc = %d\nNp = %d\nMaxDepth = %d\nMaxToks = %d\nEmitOn = TRUE\nINIT Init\nNEXT Next\nCHECK_DEADLOCK FALSE\nINVARIANT %s\n"
+               % (e, mode, nc, np_, depth, maxtoks, " ".join(list(invs) + ["Emit"])))
         extra = ["-simulate", "num=%d" % simulate, "-depth", str(depth + 1), "-seed", str(ctx.seed)] if simulate else []
         r = vlib.tlc("MCCompose", cfg, "%s_%s" % (ctx.prop, key), workers=workers, beh_out=beh, timeout=3 * 3600, extra_args=extra)
         r.update({"beh_path": beh, "N": nc + np_ + 2, "e": e, "samples": [], "compose": {"Nc": nc, "Np": np_, "depth": depth, "simulate": simulate}})
@@ -257,6 +257,10 @@ def grammar_check(ctx, cats, n_quick, n_thorough, opts, evals=EVALS, invs=None, 
     if compose:
         c = compose["quick"] if ctx.quick() else compose["thorough"]
         models.update(run_compose_models(ctx, evals, c[0], c[1]))
+        jn = compose.get("join")
+        if jn:
+            jj = jn["quick"] if ctx.quick() else jn["thorough"]          # (longest right piece, longest left piece)
+            models.update(run_compose_models(ctx, evals, jj[0], jj[1], tag="join", mode="join", invs=COMPOSE_INV + ["ComposeTree"]))
         ch = compose.get("chains")
         if ch:
             cc = ch["quick"] if ctx.quick() else ch["thorough"]      # (walks, depth, max tokens)
@@ -547,7 +551,7 @@ def c04(ctx):
                          [{"assignments": 3, "event_every": 100, "event_cap": 2000, "nontrivial_min_ops": 2, "parser_events": True},
                           {"assignments": 1, "boundary_pool": True, "full_placeholders": True, "max_assign": 150 if ctx.quick() else 3000, "event_every": 1000, "event_cap": 500,
                            "nontrivial_min_ops": 2, "only_models": ["i64", "num"]}],
-                         compose={"quick": (3, 3), "thorough": (4, 4)}, machine={"evals": ["f64", "i64"], "quick": 4, "thorough": 6})
+                         compose={"quick": (3, 3), "thorough": (4, 4), "join": {"quick": (2, 3), "thorough": (3, 4)}}, machine={"evals": ["f64", "i64"], "quick": 4, "thorough": 6})
 
 def c12(ctx):
     return grammar_check(ctx, {"meta_jux", "ok_on_reject"}, {"*": 5}, {"*": 6, "f64": 7},
